@@ -603,7 +603,7 @@ where
     D::Doc: Clone + Pretty<'a, D, A>,
     A: Clone,
 {
-    // fn name(params) { body } or fn name(params)->type { body }
+    // fn name(params) { body } or fn name(params)->type { body }; `macro` instead of `fn` for a macro
     // Structure: fn, name_token, ParamList, optional -> and type, BlockExpr or expr
     let mut result = allocator.nil();
     let mut seen_fn = false;
@@ -616,7 +616,8 @@ where
             let token = &ctx.tokens[*token_index];
 
             match token.kind {
-                TokenKind::Function => {
+                // `macro name(params) { body }` is a function declaration introduced by `macro`
+                TokenKind::Function | TokenKind::Macro => {
                     result = result.append(emit_token_with_trivia(*token_index, ctx, allocator));
                     result = result.append(allocator.space());
                     seen_fn = true;
@@ -2286,6 +2287,12 @@ mod tests {
     fn test_function_with_return_type() {
         let output = format("fn double(x)->float { x * 2.0 }");
         assert_eq!(output, "fn double(x)->float{\n    x * 2.0\n}\n");
+    }
+
+    #[test]
+    fn test_macro_decl() {
+        let output = format("macro m(x) { x }");
+        assert_eq!(output, "macro m(x){\n    x\n}\n");
     }
 
     // ========================================================================
